@@ -195,6 +195,10 @@ func (h *harness) evaluate(c *Case) *Eval {
 			h.corr(ev, "model-stuck", "model is stuck: "+mr.Stuck)
 		default:
 			ev.Model = mr
+			if mr.HypKnown && !mr.HypHold && !ev.Ref.Undef {
+				// a validated document over an accepted schema must satisfy the theorem's decidable hypotheses
+				h.corr(ev, "theorem-hypotheses", "the hypotheses of exec_correct_total (distinct positions, non-empty keys, closed schema, composite type conditions, descent certificate) do not hold for this validated document")
+			}
 			if !mr.Model.Equal(ev.Real) {
 				h.corr(ev, "model-vs-real", fmt.Sprintf("implementation: %s\nmodel:          %s", ev.Real, mr.Model))
 			}
@@ -387,8 +391,11 @@ func (h *harness) record(c *Case, ev *Eval, family string) {
 	okProp := ev.Kind != "property" && ev.Kind != "crash"
 	run.Oblige("oracle: data = Ref.data (ordered), required ⊆ errors ⊆ all by (path, locations), each failure-null explained exactly once", "oracle", 1, okProp, ev.What)
 	if h.model != nil {
-		run.Oblige("correspondence: model observable = graphql.Execute observable (ordered data, errors in order)", "correspondence", 1, !(ev.Kind == "correspondence" && ev.Oracle != "leanspec-vs-goref" && ev.Oracle != "positions-not-distinct"), ev.What)
+		run.Oblige("correspondence: model observable = graphql.Execute observable (ordered data, errors in order)", "correspondence", 1, !(ev.Kind == "correspondence" && ev.Oracle != "leanspec-vs-goref" && ev.Oracle != "positions-not-distinct" && ev.Oracle != "theorem-hypotheses"), ev.What)
 		run.Oblige("correspondence: Lean Spec (data, all, required) = Go Ref", "correspondence", 1, !(ev.Kind == "correspondence" && ev.Oracle == "leanspec-vs-goref"), ev.What)
+	}
+	if h.model != nil {
+		run.Oblige("hypothesis: the decidable hypotheses of exec_correct_total hold for every validated (schema, document)", "srcfact", 1, ev.Oracle != "theorem-hypotheses", ev.What)
 	}
 	run.Oblige("hypothesis: selection nodes of the parsed document have pairwise distinct (line, column) and non-empty response keys", "srcfact", 1, ev.Oracle != "positions-not-distinct", ev.What)
 }
